@@ -771,8 +771,11 @@ class PyCdlib:
                 else:
                     hi = mid
             index = lo
+            if index == len(thelist):
+                # The name sorts behind every child; it is not here.
+                break
             tmpchild = thelist[index]
-            if index != len(thelist) and tmpchild.rock_ridge is not None and tmpchild.rock_ridge.name() == currpath:
+            if tmpchild.rock_ridge is not None and tmpchild.rock_ridge.name() == currpath:
                 child = thelist[index]
 
             if child is None:
